@@ -82,8 +82,11 @@ class ODMLWriter:
             xmlparser.XMLWriter(odml_document).write_file(filename, local_style=local_style,
                                                           custom_template=custom_template)
         else:
+            # Render the document before opening the file: a failing serialisation
+            # must neither create nor truncate the target file.
+            data = self.to_string(odml_document, **kwargs)
             with open(filename, 'w') as file:
-                file.write(self.to_string(odml_document, **kwargs))
+                file.write(data)
 
     def to_string(self, odml_document, **kwargs):
         """
